@@ -60,7 +60,7 @@ var hostileComparators = []interface{}{"<", "<=", ">", ">=", "=", "!=", "in", "n
 
 var hostileFnNames = []interface{}{"ToUpper", "toupper", "abs", "sum", "count", "max", "min", "avg", "majority", "foo", ""}
 
-var hostileNames = []string{"i1", "i2", "f1", "b1", "s1", "e1", "e2", "id", "nosuch", "", "'q'", "\"q\"", "$v", "n1", "a b", "ä"}
+var hostileNames = []string{"i1", "i2", "f1", "b1", "s1", "e1", "e2", "id", "nosuch", "", "'q'", "\"q\"", "$v", "n1", "a b", "ä", "'q\nq'"}
 
 func pickArg(t *rapid.T, label string) hostile {
 	return hostileArgs[rapid.IntRange(0, len(hostileArgs)-1).Draw(t, label)]
@@ -372,7 +372,7 @@ func genChainOp(t *rapid.T, healthyPossible bool) chainOp {
 		return o
 	case 19:
 		k := rapid.IntRange(0, 8).Draw(t, "shape")
-		bad := rapid.SampledFrom([]string{"", "'q'", "\"q\"", "$v"}).Draw(t, "badname")
+		bad := rapid.SampledFrom([]string{"", "'q'", "\"q\"", "$v", "'q\nq'", "\"\n\""}).Draw(t, "badname")
 		ops := []chainOp{
 			{desc: "illegal destination in Copy " + bad, run: func(qf qframe.QFrame) qframe.QFrame { return qf.Copy(bad, "i1") }},
 			{desc: "illegal destination in Apply " + bad, run: func(qf qframe.QFrame) qframe.QFrame {
